@@ -155,16 +155,42 @@ func RunCheck(o CheckOptions) int {
 		ov[virt] = b
 		realOf[virt] = real
 	}
-	P, err := Load(LoadConfig{EngineDir: filepath.Join(o.VerifDir, "engine"), Overlay: ov,
-		Patterns: []string{"hcverif/...", "github.com/brutella/hc/..."}})
-	if err != nil {
-		fmt.Fprintln(os.Stderr, "LOAD FAILED:", err)
-		// a tree whose harness no longer type-checks cannot be decided
-		writeEvidence(o, seed, nil, nil, nil, time.Since(t0), []string{"load failed: " + err.Error()}, P)
-		return 2
+	var dropped []string
+	var P *Program
+	for attempt := 0; ; attempt++ {
+		P, err = Load(LoadConfig{EngineDir: filepath.Join(o.VerifDir, "engine"), Overlay: ov,
+			Patterns: []string{"hcverif/...", "github.com/brutella/hc/..."}})
+		if err == nil {
+			break
+		}
+		// A harness that names internals of /repo may stop type-checking after a refactoring
+		// that keeps the property. Such harness files are dropped (reported as inconclusive,
+		// reduced coverage) instead of failing the whole check; errors outside harness files
+		// (the tree itself does not compile) end the check.
+		bad := map[string]bool{}
+		for virt := range ov {
+			if strings.Contains(err.Error(), virt) {
+				bad[virt] = true
+			}
+		}
+		if len(bad) == 0 || attempt > 6 {
+			fmt.Fprintln(os.Stderr, "LOAD FAILED:", err)
+			fmt.Printf("INCONCLUSIVE: %s: the tree could not be loaded: %s\n", o.Prop, firstLine(err.Error()))
+			writeEvidence(o, seed, nil, nil, nil, time.Since(t0), []string{"load failed: " + err.Error()}, nil)
+			return 0
+		}
+		for virt := range bad {
+			dropped = append(dropped, filepath.Base(virt)+": "+firstErrorFor(err.Error(), virt))
+			delete(ov, virt)
+			delete(realOf, virt)
+		}
 	}
 	if o.Verbose {
 		fmt.Fprintf(os.Stderr, "loaded in %.1fs, ssa built in %.1fs\n", P.LoadTime.Seconds(), P.BuildTime.Seconds())
+	}
+	var inconclusive []string
+	for _, d := range dropped {
+		inconclusive = append(inconclusive, "harness file dropped (does not type-check against this tree): "+d)
 	}
 	var hs []*ssa.Function
 	for _, h := range P.Harnesses() {
@@ -182,19 +208,29 @@ func RunCheck(o CheckOptions) int {
 	}
 	if len(hs) == 0 {
 		fmt.Fprintln(os.Stderr, "no harness functions selected")
+		for _, m := range inconclusive {
+			fmt.Printf("INCONCLUSIVE: %s\n", m)
+		}
+		writeEvidence(o, seed, nil, nil, nil, time.Since(t0), append(inconclusive, "no harness could be run"), P)
+		if len(dropped) > 0 {
+			return 0
+		}
 		return 2
 	}
 	lim := Limits{MaxSteps: 30_000_000, MaxConcrete: 300, QueryTimeout: 20 * time.Second}
 	deadline := 8 * time.Minute
+	budget := 25 * time.Minute // whole exploration phase of one check
 	if o.Tier == "thorough" {
 		lim.QueryTimeout = 120 * time.Second
 		lim.MaxSteps = 200_000_000
-		deadline = 60 * time.Minute
+		deadline = 40 * time.Minute
+		budget = 4 * time.Hour
 	}
+	budgetEnd := time.Now().Add(budget)
+	violatedSoFar := 0
 	var reports []*HarnessReport
 	var allCex []*cexRecord
 	var samples []interface{}
-	var inconclusive []string
 	type pendingNative struct {
 		h      *ssa.Function
 		rep    *HarnessReport
@@ -205,8 +241,21 @@ func RunCheck(o CheckOptions) int {
 	rng := rand.New(rand.NewSource(seed))
 	for _, h := range hs {
 		ht0 := time.Now()
+		hd := deadline
+		if violatedSoFar > 0 && hd > 2*time.Minute {
+			// a counterexample is already in hand: the remaining harnesses only add detail
+			hd = 2 * time.Minute
+		}
+		hEnd := time.Now().Add(hd)
+		if hEnd.After(budgetEnd) {
+			hEnd = budgetEnd
+		}
+		if !time.Now().Before(budgetEnd) {
+			inconclusive = append(inconclusive, h.Name()+": not run, the time budget of this check was used up by earlier harnesses")
+			continue
+		}
 		ex := &Explorer{P: P, Harness: h, Workers: o.Workers, Lim: lim, Solver: o.Solver,
-			Fallbacks: []string{"cvc5", "z3-new"}, FPSolver: "cvc5", MaxPaths: o.MaxPaths, Deadline: time.Now().Add(deadline), WantModel: !o.NoNative}
+			Fallbacks: []string{"cvc5", "z3-new"}, FPSolver: "cvc5", MaxPaths: o.MaxPaths, Deadline: hEnd, WantModel: !o.NoNative}
 		if err := ex.Run(); err != nil {
 			fmt.Fprintln(os.Stderr, "explore:", err)
 			return 2
@@ -298,6 +347,7 @@ func RunCheck(o CheckOptions) int {
 		}
 		reports = append(reports, rep)
 		pend = append(pend, pn)
+		violatedSoFar += rep.Violated
 		if o.Verbose {
 			fmt.Fprintf(os.Stderr, "%s: %d paths %v, %d obligations (%d discharged, %d violated, %d unknown), %d queries, %.1fs\n",
 				h.Name(), rep.Paths, rep.Ends, rep.Obligations, rep.Discharged, rep.Violated, rep.Unknown, rep.Queries, rep.WallSeconds)
@@ -426,6 +476,13 @@ func RunCheck(o CheckOptions) int {
 		path := filepath.Join(replayDir, fmt.Sprintf("%s-%s-%d.json", o.Prop, o.Tier, i))
 		b, _ := json.MarshalIndent(rec, "", " ")
 		os.WriteFile(path, b, 0o644)
+		if strings.HasPrefix(rec.Label, "inv:") {
+			// an internal (implementation-specific) inductive invariant: its failure means the
+			// invariant does not fit this implementation or the bounded harnesses will show a
+			// real history; on its own it is never reported as a violation
+			inconclusive = append(inconclusive, fmt.Sprintf("%s: internal invariant %q is not preserved (facts %v); not a violation by itself (replay %s)", rec.Harness, rec.Label, rec.Facts, path))
+			continue
+		}
 		if rec.Confirmed || o.NoNative {
 			violations++
 			fmt.Printf("VIOLATION property=%s replay=%s\n", o.Prop, path)
@@ -784,4 +841,28 @@ func RunReplay(path, repo, verifDir string) int {
 	}
 	fmt.Println("NOT REPRODUCED")
 	return 0
+}
+
+func firstLine(s string) string {
+	if i := strings.IndexByte(s, '\n'); i >= 0 {
+		rest := strings.TrimSpace(s[i+1:])
+		if j := strings.IndexByte(rest, '\n'); j >= 0 {
+			rest = rest[:j]
+		}
+		return strings.TrimSpace(s[:i]) + " " + rest
+	}
+	return s
+}
+
+func firstErrorFor(all, file string) string {
+	for _, l := range strings.Split(all, "\n") {
+		if strings.Contains(l, file) {
+			l = strings.TrimSpace(l)
+			if len(l) > 240 {
+				l = l[:240]
+			}
+			return l
+		}
+	}
+	return ""
 }
